@@ -288,6 +288,11 @@ func c05Limits() []progInput {
 		add([]byte{0x51}, rep([]byte{0x61}, k), "op-count")                                                // k NOPs
 		add([]byte{0x51}, append([]byte{0x00, 0x63}, append(rep([]byte{0x61}, k-2), 0x68)...), "op-count") // counted although skipped: IF + NOPs + ENDIF
 	}
+	// the operation count is per script: opcodes in the unlocking script (it need not be push only)
+	// and in the locking script, each side at or below the limit, together above it
+	for _, split := range [][2]int{{300, 300}, {500, 1}, {1, 500}, {500, 500}, {501, 1}, {1, 501}, {250, 251}, {499, 499}} {
+		add(append([]byte{0x51}, rep([]byte{0x61}, split[0])...), rep([]byte{0x61}, split[1]), "op-count-per-script")
+	}
 	// stack depth: 999 / 1000 / 1001 items, split between data and alt stack
 	for _, k := range []int{999, 1000, 1001} {
 		add(nil, rep([]byte{0x51}, k), "stack-depth")
